@@ -10,7 +10,7 @@ import sys
 
 
 def main():
-    a = json.loads(sys.argv[1])
+    a = json.load(open(sys.argv[1][1:])) if sys.argv[1].startswith("@") else json.loads(sys.argv[1])
     logging.disable(logging.CRITICAL)
     from awverif.props._crash import HistoryRunner, is_event_write
     fd = os.open(a["journal"], os.O_WRONLY | os.O_CREAT | os.O_TRUNC)
